@@ -542,6 +542,15 @@ namespace c09
             igris::deserialize(again, v2);
             if (!Ref<T>::eq(v, viastr) || !Ref<T>::eq(v, v2) || again.ptr != r.ptr)
                 kit::violate("C09/readers-disagree@archive", "igris::deserialize<T>(string) / a reader built from an igris::buffer decode differently from the archive reader");
+            {
+                // decoding into a destination object that is in use already (it holds this very value: an update applied to the
+                // current state) consumes the same bytes; what a container destination then contains is not judged
+                igris::archive::binary_buffer_reader third(igris::buffer(p, left));
+                T reused = v;
+                igris::deserialize(third, reused);
+                if (third.ptr != r.ptr)
+                    kit::violate("C09/cursor@archive", "decoding into a destination that already holds the value consumed %td bytes, decoding into a fresh one %td", third.ptr - p, r.ptr - p);
+            }
         }
     };
 
